@@ -441,6 +441,7 @@ type sut struct {
 	useHTTP  bool
 	logs     []logID
 	maxConns int
+	plan     *faultPlan // non-nil: the database is opened through the fault-injecting driver
 	wkey     *keys.Key
 	wv       *witnessx.WitnessVerifier
 }
@@ -469,12 +470,15 @@ func pemPKCS8(k *keys.Key) string {
 
 // newSUT opens a fresh file-backed sqlite database and builds the witness the way impl.Main does:
 // verifier map keyed by LogIDFromPubKey, optional SetMaxOpenConns(1), server + encoded-path router.
-func newSUT(logs []logID, wkey *keys.Key, maxConns int, useHTTP bool) (*sut, error) {
+func newSUT(logs []logID, wkey *keys.Key, maxConns int, useHTTP, faults bool) (*sut, error) {
 	dir, err := os.MkdirTemp(scratchRoot(), "c19-")
 	if err != nil {
 		return nil, err
 	}
 	s := &sut{dir: dir, useHTTP: useHTTP, wkey: wkey}
+	if faults {
+		s.plan = &faultPlan{}
+	}
 	ok := false
 	defer func() {
 		if !ok {
@@ -496,7 +500,13 @@ func newSUT(logs []logID, wkey *keys.Key, maxConns int, useHTTP bool) (*sut, err
 // open (re)opens the database file and builds witness, server and router on it.
 func (s *sut) open() error {
 	var err error
-	s.db, err = sql.Open("sqlite3", filepath.Join(s.dir, "witness.db"))
+	dsn := filepath.Join(s.dir, "witness.db")
+	drv := "sqlite3"
+	if s.plan != nil {
+		drv = faultDriverName
+		faultPlans.Store(dsn, s.plan)
+	}
+	s.db, err = sql.Open(drv, dsn)
 	if err != nil {
 		return err
 	}
@@ -540,6 +550,7 @@ func (s *sut) close() {
 	if s.db != nil {
 		s.db.Close()
 	}
+	faultPlans.Delete(filepath.Join(s.dir, "witness.db"))
 	os.RemoveAll(s.dir)
 }
 
@@ -552,8 +563,13 @@ type reply struct {
 }
 
 func (s *sut) update(id string, sth []byte, proof [][]byte) reply {
+	return s.updateCtx(context.Background(), id, sth, proof)
+}
+
+// updateCtx issues the update under the caller's context (direct: passed to Update; HTTP: the request context).
+func (s *sut) updateCtx(ctx context.Context, id string, sth []byte, proof [][]byte) reply {
 	if !s.useHTTP {
-		b, err := s.w.Update(context.Background(), id, sth, proof)
+		b, err := s.w.Update(ctx, id, sth, proof)
 		if err != nil {
 			return reply{ok: false, body: b, note: err.Error(), conflict: b != nil}
 		}
@@ -566,7 +582,7 @@ func (s *sut) update(id string, sth []byte, proof [][]byte) reply {
 	if err != nil {
 		panic(err)
 	}
-	return s.do("PUT", fmt.Sprintf(witnessx.HTTPUpdate, url.PathEscape(id)), body)
+	return s.do(ctx, "PUT", fmt.Sprintf(witnessx.HTTPUpdate, url.PathEscape(id)), body)
 }
 
 func (s *sut) getSTH(id string) reply {
@@ -577,7 +593,7 @@ func (s *sut) getSTH(id string) reply {
 		}
 		return reply{ok: true, body: b}
 	}
-	return s.do("GET", fmt.Sprintf(witnessx.HTTPGetSTH, url.PathEscape(id)), nil)
+	return s.do(context.Background(), "GET", fmt.Sprintf(witnessx.HTTPGetSTH, url.PathEscape(id)), nil)
 }
 
 func (s *sut) getLogs() ([]string, reply) {
@@ -588,7 +604,7 @@ func (s *sut) getLogs() ([]string, reply) {
 		}
 		return l, reply{ok: true}
 	}
-	r := s.do("GET", witnessx.HTTPGetLogs, nil)
+	r := s.do(context.Background(), "GET", witnessx.HTTPGetLogs, nil)
 	if !r.ok {
 		return nil, r
 	}
@@ -599,8 +615,8 @@ func (s *sut) getLogs() ([]string, reply) {
 	return l, r
 }
 
-func (s *sut) do(method, path string, body []byte) reply {
-	req := httptest.NewRequest(method, "http://witness.test"+path, bytes.NewReader(body))
+func (s *sut) do(ctx context.Context, method, path string, body []byte) reply {
+	req := httptest.NewRequest(method, "http://witness.test"+path, bytes.NewReader(body)).WithContext(ctx)
 	rec := httptest.NewRecorder()
 	s.router.ServeHTTP(rec, req)
 	return reply{ok: rec.Code == http.StatusOK, body: rec.Body.Bytes(), note: "HTTP " + strconv.Itoa(rec.Code), conflict: rec.Code == http.StatusConflict}
